@@ -57,7 +57,12 @@ type fromItemsKeyTypeError struct {
 }
 
 func (err *fromItemsKeyTypeError) Error() string {
-	return "array passed to from_items contains an item with a key of type " + err.key.String()
+	t := "nil"
+	if err.key != nil {
+		t = err.key.String()
+	}
+
+	return "array passed to from_items contains an item with a key of type " + t
 }
 
 func (err *fromItemsKeyTypeError) Is(target error) bool {
